@@ -9,7 +9,7 @@ for a in sys.argv[2:]:
 d, r = vlib.make_scratch()
 try:
     rep = vlib.inject_kani(r, omit_contracts=tuple(os.environ.get("OMIT","").split(",")) if os.environ.get("OMIT") else ())
-    out = vlib.run_kani(r, "mina_core", hs, timeout_s=to, jobs=int(os.environ.get("JOBS","14")), extra=extra)
+    out = vlib.run_kani(r, "mina_core", hs, timeout_s=to, jobs=int(os.environ.get("JOBS","14")), extra=extra, features=os.environ.get("FEATURES"))
     print("wall", out["wall_s"], "missing", out["missing"])
     for h,res in sorted(out["results"].items()):
         print(" ", h, res["status"], res["n_checks"], res["solver_s"], res["duration_ms"])
